@@ -1287,6 +1287,11 @@ struct sm_restore {
 
 static int sm_load_u32(struct sm_restore *sm, uint8_t type, uint32_t *val)
 {
+    if ((sm->state + 5) > sm->state_end) {
+        strophe_error(sm->conn->ctx, "conn",
+                      "Provided sm_state data is too short");
+        return XMPP_EINVOP;
+    }
     if (*sm->state != type) {
         strophe_error(
             sm->conn->ctx, "conn",
@@ -1295,11 +1300,6 @@ static int sm_load_u32(struct sm_restore *sm, uint8_t type, uint32_t *val)
         return XMPP_EINVOP;
     }
     sm->state++;
-    if ((sm->state + 4) > sm->state_end) {
-        strophe_error(sm->conn->ctx, "conn",
-                      "Provided sm_state data is too short");
-        return XMPP_EINVOP;
-    }
     uint32_t v;
     memcpy(&v, sm->state, 4);
     sm->state += 4;
